@@ -193,3 +193,81 @@ def tasks(tier):
 def kani(tier):
     if tier != 'thorough': return []
     return [dict(harness='signer_auth_table', oid='C08.k', covers=2, stubs=0, desc='SECOND ENGINE (Kani/CBMC on the compiled code): is_signer_authorized / account_not_frozen_for_authority == the reference truth table for all 2^64 flag words and all 32-byte keys', functions=['marginfi::state::marginfi_account::is_signer_authorized', 'account_not_frozen_for_authority'], bounds='unwind 34 (32-byte key comparison); loop-free otherwise')]
+
+
+# ---------------------------------------------------------------- C08.g: the program's entry points hand each instruction argument to the handler parameter of the same name (auxiliary MIR scan)
+def t_entry_wiring(world):
+    """Every `#[program]` entry `marginfi::<ix>(ctx, a, b, ..)` is a one-line forwarder. Two arguments of the same type swapped there (e.g. two admin keys, two Option<u64>) compile and pass every test.
+    Decided on the MIR text: the handler call receives, at each position, the entry parameter whose debug NAME equals the handler parameter's name (possibly through a pure conversion)."""
+    ob = Ob('C08.g', 'program entry points: each instruction argument is forwarded to the handler parameter of the same name, the context first, and the handler\'s result is returned unchanged',
+            [], 'auxiliary scan of the MIR text of the 78 entry forwarders (names compared, not a solver query); a forwarder with a shape the scan does not understand, or differently named parameters, is UNDECIDED (exit 2), a name-level swap is a counterexample')
+    m = world.load('marginfi')
+    txt = open(m.path).read() if hasattr(m, 'path') else open(MIRDIR + '/marginfi.mir').read()
+    blocks = {}
+    for mm in re.finditer(r'^fn ([^\n(]+)\((.*?)\) -> [^\n]*\{\n(.*?)^\}\n', txt, flags=re.S | re.M):
+        blocks[mm.group(1)] = (mm.group(2), mm.group(3))
+    entries = {n: b for n, b in blocks.items() if re.match(r'^marginfi::[a-z_0-9]+$', n)}
+    if len(entries) < 50: ob.fail(f'only {len(entries)} entry forwarders found: the scan no longer understands the MIR'); return [ob]
+    ob.paths = len(entries)
+    def dbg(body, nparams):
+        d = {}
+        for x in re.finditer(r'^\s*debug (\w+) => (_\d+);', body, flags=re.M):
+            k = int(x.group(2)[1:])
+            if 1 <= k <= nparams: d[k] = x.group(1)
+        return d
+    nparams = lambda sig: len(re.findall(r'(?:^|, )_\d+: ', sig))
+    for name, (sig, body) in sorted(entries.items()):
+        np_ = nparams(sig); names = dbg(body, np_)
+        calls = re.findall(r'^\s*(_\d+) = ([^\n]*?)\((.*)\) -> \[return', body, flags=re.M)
+        conv = {}; handler = None
+        for dest, callee, argstr in calls:
+            args = [a.strip() for a in split_args(argstr)]
+            if dest == '_0' and handler is None and not re.search(r'as (Into|From)<', callee): handler = (callee.strip(), args)
+            elif re.search(r'as (Into|From)<|::into$|::from$', callee) and len(args) == 1:
+                src = re.sub(r'^(copy|move) ', '', args[0]); conv[dest] = src
+            else: handler = handler or None
+        if handler is None or len([c for c in calls if c[0] == '_0']) != 1:
+            ob.fail(f'{name}: forwarder shape not understood ({len(calls)} calls)'); continue
+        callee, args = handler
+        hb = blocks.get(callee) or next((b for n, b in blocks.items() if n.endswith('::' + callee.split('::')[-1]) and n.split('::')[-1] == callee.split('::')[-1] and callee.split('::')[-2:] == n.split('::')[-2:]), None)
+        if hb is None: ob.fail(f'{name}: handler {callee} not found in the MIR'); continue
+        hnames = dbg(hb[1], nparams(hb[0]))
+        ob.queries += 1
+        bad = []; undecided = []
+        for pos, a in enumerate(args, start=1):
+            src = re.sub(r'^(copy|move) ', '', a)
+            src = conv.get(src, src)
+            if not re.match(r'^_\d+$', src): undecided.append((pos, a)); continue
+            ename = names.get(int(src[1:])); hname = hnames.get(pos)
+            if ename is None or hname is None: undecided.append((pos, a)); continue
+            # reviewed renamings on the reference tree: entry-side name -> handler-side name (a forwarder may call the same thing differently on its two sides)
+            RENAMED = {'flags': 'emissions_flags', 'rate': 'emissions_rate', 'bank_config_opt': 'bank_config', 'limit': 'daily_withdrawal_limit', 'admin': 'admin_key'}
+            norm = lambda s_: s_.lstrip('_')
+            if RENAMED.get(norm(ename)) == norm(hname): continue
+            canon = lambda s_: RENAMED.get(norm(s_), norm(s_))
+            if norm(ename) == norm(hname): continue
+            if norm(hname) in {canon(v) for v in names.values()} or canon(ename) in {norm(v) for v in hnames.values()}:
+                bad.append(f'handler parameter `{hname}` (position {pos}) receives the entry argument `{ename}`')
+            else: undecided.append((pos, a))
+        if bad:
+            ob.sat += 1; ob.cex.append({'ob': ob.oid, 'label': f'{name} -> {callee.split("::")[-1]}: ' + '; '.join(bad), 'role': 'entry-swap:' + name.split('::')[-1], 'model': {'entry_params': names, 'handler_params': hnames, 'call_args': args}, 'replay': None})
+        elif undecided: ob.fail(f'{name}: parameter names of entry and handler differ at {undecided[:3]} (renamed on one side?) - undecided')
+        else: ob.unsat += 1
+    ob.witness_sat = 1
+    return [ob]
+
+
+def split_args(s):
+    out = []; d = 0; cur = ''
+    for ch in s:
+        if ch in '(<[{': d += 1
+        elif ch in ')>]}': d -= 1
+        if ch == ',' and d == 0: out.append(cur); cur = ''
+        else: cur += ch
+    if cur.strip(): out.append(cur)
+    return out
+
+
+_t_ew = tasks
+def tasks(tier):
+    return _t_ew(tier) + [('entry_wiring', t_entry_wiring)]
